@@ -354,6 +354,10 @@ class _G(object):
             bw = self.width()
         m = {'name': self.name('mem'), 'bw': bw, 'aw': aw,
              'async': rng.random() < cfg['async_prob'], 'rom': None}
+        if self.mems and cfg.get('dup_mem_name_prob') and rng.random() < cfg['dup_mem_name_prob']:
+            # memory names need not be unique (a helper that creates MemBlock(name='scratch')
+            # instantiated twice): nets and simulators identify a memory by object / id
+            m['name'] = self.mems[-1]['name']
         if cfg.get('ports_exact_prob') and rng.random() < cfg['ports_exact_prob']:
             m['ports_exact'] = True     # declared with max_read/write_ports = the ports it has
         if rom:
@@ -417,7 +421,15 @@ def gen_script(rng, cfg):
         g.add_wire('I', g.width(), g.name('i', vis), sync=True)
     for _ in range(rng.randint(*cfg['consts'])):
         w = g.width()
-        g.add_wire('C', w, g.name('c'), val=rand_val(rng, w), sync=True)
+        cv = rand_val(rng, w)
+        cn = g.name('c')
+        if cfg.get('const_quote_prob') and rng.random() < cfg['const_quote_prob']:
+            # the name PyRTL gives a Verilog-style string constant: const_<n>_<w>'h<v>
+            qn = "const_%s_%d'h%x" % (cn[1:], w, cv)
+            if qn not in g.names:
+                g.names.add(qn)
+                cn = qn
+        g.add_wire('C', w, cn, val=cv, sync=True)
     regs = []
     for _ in range(rng.randint(*cfg['regs'])):
         w = g.width()
@@ -444,6 +456,8 @@ def gen_script(rng, cfg):
         if g.mems[mi]['rom'] is None:
             g.write_ports(mi)
             if not any(nt['op'] == 'm' and nt['p'] == mi for nt in g.nets):
+                if cfg.get('write_only_mem_prob') and rng.random() < cfg['write_only_mem_prob']:
+                    continue        # a log buffer: written, read back only through inspect_mem
                 g.read_port(mi)
         elif not any(nt['op'] == 'm' and nt['p'] == mi for nt in g.nets):
             g.read_port(mi)
@@ -511,7 +525,7 @@ def gen_inputs(rng, script, ncycles):
     return tape
 
 
-def gen_init(rng, script, allow_default=True):
+def gen_init(rng, script, allow_default=True, mem_misfit=False):
     regs = {}
     for w in script['wires']:
         if w['k'] == 'R' and rng.random() < 0.4:
@@ -532,8 +546,11 @@ def gen_init(rng, script, allow_default=True):
         if rng.random() < 0.4:
             # a larger default is legal when it fits every register and every memory word
             # (inputs may well be narrower)
-            lim = [w['w'] for w in script['wires'] if w['k'] == 'R'] + \
-                  [m['bw'] for m in script['mems'] if not m.get('rom')]
+            lim = [w['w'] for w in script['wires'] if w['k'] == 'R']
+            if not (mem_misfit and rng.random() < 0.6):
+                # (with mem_misfit the default need only fit the registers: a memory read of
+                # an unwritten address then delivers it truncated to the port width)
+                lim += [m['bw'] for m in script['mems'] if not m.get('rom')]
             room = min(lim) if lim else 8
             if room >= 2:
                 default = rng.randrange(2, 1 << min(room, 8))
